@@ -28,7 +28,7 @@ func otherName(k int64) int64 { return (k + 1 + 2) % nNames }
 func nameOf(s string) int64 { return nameKey(s) }
 
 func (g *Gen) scenario(p *Pool) []Op {
-	switch g.r.below(20) {
+	switch g.r.below(24) {
 	case 0, 1:
 		return g.scBusStatic(p)
 	case 2, 3:
@@ -47,8 +47,12 @@ func (g *Gen) scenario(p *Pool) []Op {
 		return g.scNestedRemove(p)
 	case 17, 18:
 		return g.scGroupClear(p)
-	default:
+	case 19:
 		return g.scBuilder(p)
+	case 20, 21:
+		return g.scOversize(p)
+	default:
+		return g.scClone(p)
 	}
 }
 
